@@ -69,7 +69,7 @@ PROPS = {
     'C01': dict(
         level='proof',
         kani=[dict(package='aldrin-core', injections=[KANI_CORE_BUF, KANI_CORE_KEY, KANI_CORE_DESER, KANI_CORE_CONT],
-                   jobs=6)],
+                   jobs=5)],
         trusted_base=TB_KANI + TB_STUB + ['bytes crate (Buf for &[u8], BytesMut) is verified as compiled'],
         assumptions=['container obligations are bounded to 2 elements (labelled bounded, not counted as proved)'],
         undecided_clauses=[
@@ -82,7 +82,7 @@ PROPS = {
     ),
     'C07': dict(
         level='proof',
-        kani=[dict(package='aldrin-core', injections=[KANI_CORE_BUF, KANI_CORE_KEY, KANI_CORE_DESER], jobs=6)],
+        kani=[dict(package='aldrin-core', injections=[KANI_CORE_BUF, KANI_CORE_KEY, KANI_CORE_DESER, KANI_CORE_CONT], jobs=5)],
         trusted_base=TB_KANI + TB_STUB + ['bytes crate (Buf for &[u8], BytesMut) is verified as compiled'],
         assumptions=['primitives read at most N+1 bytes, so slice lengths beyond N+2 add no behaviour (argued, not '
                      'machine-checked)'],
